@@ -308,7 +308,7 @@ Proof.
     + destruct (negb (start_stage_fresh (s_status (eff st))) && _); [simpl in Hin; contradiction|].
       destruct (should_skip (eff st)); [try rewrite held_commits in Hin; simpl in Hin; contradiction|].
       unfold after_mutex_check, after_choice_check in Hin.
-      destruct (s_mutex (eff st)); [exact Hin|]. destruct (s_choice (eff st)); exact Hin.
+      destruct (s_mutex (eff st)); [exact Hin|]. destruct (s_choice (eff st)); [destruct (choice_fast_guard _)|]; exact Hin.
     + destruct (start_stage_late _); [simpl in Hin; contradiction|].
       destruct (start_stage_waits _ _); [simpl in Hin; contradiction|].
       destruct (wait_exhausted _ _); [|try rewrite held_commits in Hin; simpl in Hin; contradiction].
@@ -322,7 +322,7 @@ Proof.
     destruct (w_kind w) eqn:Hk; try discriminate. inversion H; subst. clear H. left. simpl.
     destruct (mutex_blocked s i (eff st)).
     + unfold requeue_pc in Hin. try rewrite held_commits in Hin. simpl in Hin. contradiction.
-    + unfold after_mutex_check, after_choice_check in Hin. destruct (s_choice (eff st)); exact Hin.
+    + unfold after_mutex_check, after_choice_check in Hin. destruct (s_choice (eff st)); [destruct (choice_fast_guard _)|]; exact Hin.
   - (* SReadChoice *)
     destruct (w_kind w) eqn:Hk; try discriminate. inversion H; subst. clear H. left. simpl.
     destruct (choice_claimed s i (eff st)).
@@ -1260,7 +1260,7 @@ Proof.
             (destruct H2 as [H2|H2]; [left; exact H2|right; apply is_nil_true; exact H2]). }
       destruct (should_skip (eff st)); [wfc|].
       unfold after_mutex_check, after_choice_check.
-      destruct (s_mutex (eff st)); [exact Hcl|]. destruct (s_choice (eff st)); exact Hcl.
+      destruct (s_mutex (eff st)); [exact Hcl|]. destruct (s_choice (eff st)); [destruct (choice_fast_guard _)|]; exact Hcl.
     + destruct (start_stage_late _); [exact I|]. destruct (start_stage_waits _ _); [exact I|].
       destruct (wait_exhausted _ _).
       * simpl. repeat split; auto; [exists id, i, retry; reflexivity|nst].
@@ -1274,7 +1274,7 @@ Proof.
     destruct (w_kind w) eqn:Hk; try discriminate. inversion H; subst. clear H. simpl in Hw.
     destruct (mutex_blocked s i (eff st)).
     + unfold requeue_pc. wfc.
-    + unfold after_mutex_check, after_choice_check. destruct (s_choice (eff st)); exact Hw.
+    + unfold after_mutex_check, after_choice_check. destruct (s_choice (eff st)); [destruct (choice_fast_guard _)|]; exact Hw.
   - (* SReadChoice *)
     destruct (w_kind w) eqn:Hk; try discriminate. inversion H; subst. clear H. simpl in Hw.
     destruct (choice_claimed s i (eff st)).
